@@ -317,7 +317,7 @@ func tableUser(maxLen int) []kase {
 					}
 					src := fmt.Sprintf("(%s f %s 7)\n(f%s)", definer, u.formals(), pre(args))
 					ks = append(ks, kase{Table: "T2-user-" + definer, Src: src, Line: 2, Callee: "f", HasKey: u.key > 0,
-						Class: fmt.Sprintf("user:%s:%s/%s", definer, u.formals(), strings.Join(args, ",")), WantPkg: "user"})
+						Class: fmt.Sprintf("user:%s:%s", definer, u.formals()), WantPkg: "user"})
 				}
 			}
 		}
